@@ -5,7 +5,7 @@ import hashlib
 
 from mc import core, joinspace as js, provenance
 
-NROUTES = len(provenance.TABLE_ROUTES)
+NROUTES = len(provenance.TABLE_ROUTES_ALL)
 from mc.core import Agg, V
 from mc.models import obs, truthful
 
@@ -56,7 +56,7 @@ def run_unit(unit):
                 vi += 1
                 L, lon, lcols = js.build_side("L", lkeys, nkeys, config, form, variant=vi % NROUTES)
                 R, ron, rcols = js.build_side("R", rkeys, nkeys, config, form, variant=(vi // NROUTES) % NROUTES)
-                case["routes"] = [provenance.TABLE_ROUTES[vi % NROUTES], provenance.TABLE_ROUTES[(vi // NROUTES) % NROUTES]]
+                case["routes"] = [provenance.TABLE_ROUTES_ALL[vi % NROUTES], provenance.TABLE_ROUTES_ALL[(vi // NROUTES) % NROUTES]]
             except Exception as e:
                 agg.violation(V("join.build-inputs", "raises-" + type(e).__name__, case))
                 continue
@@ -140,8 +140,8 @@ def replay(rec):
         return set(agg.viol)
     form = case["form"]
     routes = case.get("routes") or ["direct", "direct"]
-    L, lon, lcols = js.build_side("L", lkeys, case["nkeys"], case["config"], form, variant=provenance.TABLE_ROUTES.index(routes[0]))
-    R, ron, rcols = js.build_side("R", rkeys, case["nkeys"], case["config"], form, variant=provenance.TABLE_ROUTES.index(routes[1]))
+    L, lon, lcols = js.build_side("L", lkeys, case["nkeys"], case["config"], form, variant=provenance.TABLE_ROUTES_ALL.index(routes[0]))
+    R, ron, rcols = js.build_side("R", rkeys, case["nkeys"], case["config"], form, variant=provenance.TABLE_ROUTES_ALL.index(routes[1]))
     want = js.ref_inner(lcols, rcols, lkeys, rkeys)
     site = f"inner_join.{form}"
     try:
